@@ -42,15 +42,17 @@ PROPS = {
                         "present in the generator's output at that commit is invisible to this property"],
     },
     "C03": {
-        "theorems": ["FinProto.Obl.C03_prims", "FinProto.Obl.C03_messages", "FinProto.Obl.C03_no_unrecognised_statement", "FinProto.Obl.C03_scalar", "FinProto.toE_le_eq_reverse_be", "FinProto.writeNums_ok", "FinProto.writeVstr_ok", "FinProto.writeFixeds_ok", "FinProto.writeVstrs_ok", "FinProto.writeNums_le_be", "FinProto.writeNums_is", "FinProto.readNums_is", "FinProto.writeVstrs_is", "FinProto.readVstrs_is", "FinProto.writeFixeds_is", "FinProto.readFixeds_is", "FinProto.writeNums_mixed_differs", "FinProto.writeVstr_le_be", "FinProto.writeFixeds_le_be", "FinProto.writeVstrs_le_be"],
-        "aspects": {**ENC_BYTES, **DEC_ALL},
+        "theorems": ["FinProto.Obl.C03_prims", "FinProto.Obl.C03_messages", "FinProto.Obl.C03_no_unrecognised_statement", "FinProto.Obl.C03_scalar", "FinProto.toE_le_eq_reverse_be", "FinProto.writeNums_ok", "FinProto.writeVstr_ok", "FinProto.writeFixeds_ok", "FinProto.writeVstrs_ok", "FinProto.writeNums_le_be", "FinProto.writeNums_is", "FinProto.readNums_is", "FinProto.writeVstrs_is", "FinProto.readVstrs_is", "FinProto.writeFixeds_is", "FinProto.readFixeds_is", "FinProto.writeNums_mixed_differs", "FinProto.writeVstr_le_be", "FinProto.writeFixeds_le_be", "FinProto.writeVstrs_le_be",
+                     "FinProto.Obl.C03_nosvc", "FinProto.encodeNS_spec", "FinProto.encFrameNS_spec"],
+        "aspects": {**ENC_BYTES, **DEC_ALL, "encns": [0, 1]},
         "rule": "every BE/LE primitive pair x prefix widths {1,2,4,8} x element kinds {u8..u64,i8..i64,f32,f64 and NAMED numeric types} x "
                 "values with counts >= 2 and lengths >= 256 (count 1 and palindromic values cannot see byte order); the LE bytes must be the BE "
-                "bytes with each integer reversed; plus messages of all types vs the model. distinct = (op, kind, outcome, length class).",
+                "bytes with each integer reversed; plus messages of all types vs the model; the checksummed frames encoded while NO checksum service is registered (the caller's "
+                "checksum is written: byte order of that path). distinct = (op, kind, outcome, length class).",
     },
     "C04": {
         "theorems": ["FinProto.Obl.C04_frames_recognised", "FinProto.Obl.C04_repo", "FinProto.Obl.C04_shape", "FinProto.frame_len_exact", "FinProto.frame_shape", "FinProto.patch_mid"],
-        "aspects": {**ENC_ALL},
+        "aspects": {**ENC_ALL, "encns": [0, 1, 2]},
         "rule": "the 4 self-measuring frames x every body type of their tables x {stale length/checksum, absent body, unregistered key} x "
                 "bodies of 30/120/300 elements (> 1 KiB: the buffer reallocates while the body is written) x buffer histories; the length on the "
                 "wire, the object's field and an independent count must agree; re-encode after a size-preserving change.",
@@ -84,9 +86,12 @@ PROPS = {
     "C09": {
         "theorems": ["FinProto.Obl.C09_widths", "FinProto.Obl.C09_elems", "FinProto.Obl.C09_no_unrecognised_statement", "FinProto.Obl.C09_no_panic", "FinProto.dec_no_panic", "FinProto.dec_ok_or_err", "FinProto.Obl.C09_linear_time", "FinProto.Obl.C09_cost_projection", "FinProto.decTyC_steps_linear", "FinProto.repIters_le"],
         "aspects": {**DEC_CLASS},
+        "extra_race": "C09PAR",
         "rule": "malformed stream into all 170 decoders: bit flips, random windows, pad sprinkles, truncations (every cut in the first 24 and last "
                 "12 bytes), 0xFF windows, random bytes, maximal length/count prefixes followed by 0/1/3/40 bytes; outcome class compared with "
-                "the model's; panics and hangs (20 s watchdog) are violations.",
+                "the model's; panics and hangs (60 s watchdog) are violations. Second pass under the race detector: 16 goroutines "
+                "decode the same hostile inputs (unregistered discriminators, truncations, bit flips, random bytes) at the same moment; a process "
+                "abort (fatal error: concurrent map writes), a data race on an error path, or an outcome differing from the sequential one is a violation.",
         "assumptions": ["a Go runtime abort that is not a panic (out-of-memory kill) is C10's subject"],
     },
     "C10": {
@@ -170,9 +175,12 @@ PROPS = {
     "C20": {
         "theorems": ["FinProto.Obl.C20_repo", "FinProto.Par.par_eq_seq", "FinProto.Par.sched_irrelevant", "FinProto.Par.workers_par_eq_seq"],
         "race": True,
-        "aspects": {**ENC_ALL},
+        "history": True,
+        "aspects": {**ENC_ALL, **DEC_ALL},
         "rule": "all types (3-20 values each, mixed protocols, pad bytes and checksum algorithms) encoded and decoded by 16 goroutines on "
-                "their own objects and buffers, in different orders, compared with the sequential results; under the race detector.",
+                "their own objects and buffers, in different orders, compared with the sequential results; under the race detector. History independence: the same raw field bytes read / texts written "
+                "under every pad byte and pad side, interleaved, and messages whose text fields all hold the same few raw strings decoded back to back, "
+                "compared with the stateless model.",
         "assumptions": ["the Go memory model; the theorem and the effect inventory say there is nothing shared to race on"],
     },
 }
